@@ -40,7 +40,11 @@ RULE = ("one operation (add_bracket result, bracket_indices, marginal_rates, rat
         "thresholds are multiples of 1/8 including 0 and negatives (or powers of two, where the shifted "
         "computation is exact in binary64), rates/amounts dyadic; options: factor, round decimals, base dtype "
         "int64/float32/float64, right; a case is non-trivial when scale and base vector are non-empty and the "
-        "operation returns values; distinct as (operation, calls, bases, options)")
+        "operation returns values; distinct as (operation, calls, bases, options); plus sequences on ONE scale "
+        "object (operation, then add_bracket / multiply_thresholds / multiply_rates in place / scale_tax_scales, "
+        "then operations again: every definition must hold after every step on the brackets the object then "
+        "reports, and the model is run on those brackets), and a few scales of 129..300 brackets with bases "
+        "around the 128th / 256th threshold and above all thresholds")
 TRUSTED = ["numpy (tile/outer/minimum/maximum/dot/digitize/round) is modelled by list functions in coq/model/Scale.v, covered by the correspondence only",
            "the float addition factor + numpy.finfo(float).eps is evaluated by the harness with numpy and handed to the model as its eps (2^-52 for factor in [1,2), 0 when absorbed)",
            "harness/scalelib.py decides from the inputs (Fraction arithmetic) whether a real-valued result is compared exactly, on a 10^-6 grid, or only by the oracle"]
@@ -83,11 +87,14 @@ def call(c, s, arr):
     raise ValueError(op)
 
 
-def run_impl(c):
-    s = mk_scale(c)
-    if c["op"] == "build":
-        vals = s.rates if c["kind"] in ("mr", "la") else s.amounts
-        return {"thresholds": [L.tofr(x) for x in s.thresholds], "values": [L.tofr(x) for x in vals]}
+def state_of(c, s):
+    vals = s.rates if c["kind"] in ("mr", "la") else s.amounts
+    return {"thresholds": [L.tofr(x) for x in s.thresholds], "values": [L.tofr(x) for x in vals]}
+
+
+def observe(c, s):
+    """One operation on the (already built) scale object s: whole vector, base by base,
+    and the brackets the object reports afterwards."""
     dt = DTYPES[c["dtype"]]
     arr = numpy.array([float(fr(b)) for b in c["bases"]]).astype(dt)
     vec = call(c, s, arr)
@@ -95,9 +102,59 @@ def run_impl(c):
     for k in range(len(c["bases"])):
         single.append(call(c, s, arr[k:k + 1])[0])
     # the scale itself must not be altered by a computation
-    vals = s.rates if c["kind"] in ("mr", "la") else s.amounts
-    after = {"thresholds": [L.tofr(x) for x in s.thresholds], "values": [L.tofr(x) for x in vals]}
-    return {"vec": vec, "single": single, "after": after}
+    return {"vec": vec, "single": single, "after": state_of(c, s)}
+
+
+def run_seq(c):
+    """Operations and in-place transformations on ONE scale object."""
+    s = mk_scale(c)
+    ints = c.get("ints", False)
+    out = []
+    for st in c["steps"]:
+        do = st["do"]
+        if do == "obs":
+            out.append(observe(st["case"], s))
+            continue
+        if do == "add":
+            s.add_bracket(L.pynum(fr(st["t"]), ints), L.pynum(fr(st["v"]), ints))
+            out.append({"state": state_of(c, s)})
+        elif do == "mul_thr":
+            s.multiply_thresholds(float(fr(st["f"])))
+            out.append({"state": state_of(c, s)})
+        elif do == "mul_rates":
+            s.multiply_rates(float(fr(st["f"])))
+            out.append({"state": state_of(c, s)})
+        elif do == "scaled":
+            old = s
+            s = old.scale_tax_scales(float(fr(st["f"])))
+            out.append({"state": state_of(c, s), "old_state": state_of(c, old)})
+        else:
+            raise ValueError(do)
+    return out
+
+
+def run_impl(c):
+    if c["op"] == "seq":
+        return run_seq(c)
+    s = mk_scale(c)
+    if c["op"] == "build":
+        return state_of(c, s)
+    return observe(c, s)
+
+
+def apply_step(calls, st):
+    """The add_bracket calls equivalent to the object's brackets after a transforming step
+    (reference, Fraction arithmetic)."""
+    do = st["do"]
+    if do == "add":
+        return calls + [[st["t"], st["v"]]]
+    f = fr(st["f"])
+    br = L.ref_build(calls)
+    if do in ("mul_thr", "scaled"):
+        return [[enc(t * f), enc(v)] for t, v in br]
+    if do == "mul_rates":
+        return [[enc(t), enc(v * f)] for t, v in br]
+    raise ValueError(do)
 
 
 # ---- Coq side ------------------------------------------------------------------------------
@@ -107,6 +164,8 @@ def coq_case(c):
     calls = L.ccalls(c["calls"])
     if op == "build":
         return f"(KBuild {calls})"
+    if op == "seq":
+        return "(KSeq " + clist([coq_case(st["case"]) for st in c["steps"] if st["do"] == "obs"]) + ")"
     bases = L.cqs(c["bases"])
     eps = L.cq(fr(c.get("eps", "0")))
     factor = L.cq(fr(c.get("factor", "1")))
@@ -135,6 +194,8 @@ def obs_for_coq(c, o):
         return o
     if c["op"] == "build":
         return [o["thresholds"], o["values"]]
+    if c["op"] == "seq":
+        return [obs_for_coq(st["case"], ok) for st, ok in zip(c["steps"], o) if st["do"] == "obs"]
     if c["op"] in ("calc_mr", "calc_la"):
         return L.project(c["modes"], o["vec"])
     return o["vec"]
@@ -142,8 +203,50 @@ def obs_for_coq(c, o):
 
 # ---- oracle: the statement of C08 on the implementation's answers ------------------------------
 
+def describe_steps(c, upto):
+    out = []
+    for st in c["steps"][:upto + 1]:
+        if st["do"] == "obs":
+            out.append(f"{st['case']['op']}({len(st['case']['bases'])} bases)")
+        elif st["do"] == "add":
+            out.append(f"add_bracket({st['t']}, {st['v']})")
+        else:
+            out.append(f"{st['do']}({st['f']})")
+    return " -> ".join(out)
+
+
+def same_state(state, br):
+    return state["thresholds"] == [t for t, _ in br] and len(state["values"]) == len(br) and all(
+        L.close(g, v) for (_, v), g in zip(br, state["values"]))
+
+
+def oracle_seq(c, o):
+    """Every definition must hold after every step, on the brackets the object then has."""
+    if isinstance(o, Err):
+        return f"sequence: raised {o.kind} ({o.msg[:80]}) on {c['calls']} / {describe_steps(c, len(c['steps']))}"
+    cur = [list(x) for x in c["calls"]]
+    for k, (st, ok) in enumerate(zip(c["steps"], o)):
+        if st["do"] == "obs":
+            m = oracle(dict(st["case"], calls=cur), ok)
+            if m:
+                return f"{m} [same scale object, built by {c['calls']}, after: {describe_steps(c, k)}]"
+            continue
+        prev = L.ref_build(cur)
+        cur = apply_step(cur, st)
+        br = L.ref_build(cur)
+        if not same_state(ok["state"], br):
+            return (f"sequence: after {describe_steps(c, k)} on {c['calls']} the scale reports {ok['state']}, "
+                    f"expected brackets {br}")
+        if "old_state" in ok and not same_state(ok["old_state"], prev):
+            return (f"sequence: {describe_steps(c, k)} on {c['calls']} altered the original scale: "
+                    f"{ok['old_state']}, expected {prev}")
+    return None
+
+
 def oracle(c, o):
     op = c["op"]
+    if op == "seq":
+        return oracle_seq(c, o)
     br = L.ref_build(c["calls"])
     if isinstance(o, Err):
         if op == "build" or (br and c["bases"]):
@@ -212,11 +315,18 @@ def nontrivial(c, o):
         return False
     if c["op"] == "build":
         return len(c["calls"]) >= 1
+    if c["op"] == "seq":
+        return sum(1 for st in c["steps"] if st["do"] == "obs" and st["case"]["bases"]) >= 2
     return len(c["calls"]) >= 1 and len(c["bases"]) >= 1
 
 
 def classify(c, o):
+    if c["op"] == "seq":
+        tag = f"seq:{c['kind']}:" + ",".join(st["do"] if st["do"] != "obs" else st["case"]["op"] for st in c["steps"])
+        return tag + (":" + o.kind if isinstance(o, Err) else "")
     n = len(L.ref_build(c["calls"]))
+    if n > 64:
+        n = ">64"
     tag = f"{c['op']}:{c['kind']}:n={n}"
     if c["op"] != "build":
         if fr(c.get("factor", "1")) != 1:
@@ -377,6 +487,83 @@ def scale_cases(rng, kind, calls, ints):
     return out
 
 
+def gen_seq(rng):
+    """calc / bracket_indices / marginal_rates, then add_bracket or an in-place
+    transformation of the SAME object, then the operations again."""
+    kind = rng.choice(["mr"] * 6 + ["la"] * 2 + ["ma", "sa"])
+    n = rng.choice([1, 2, 2, 3, 3, 4, 5, 6])
+    ths = gen_thresholds(rng, n, rng.choice(["dyadic", "dyadic", "pow2", "ints"]))
+    calls = gen_calls(rng, ths, kind)
+    ints = rng.random() < 0.4
+    pool = AMOUNTS if kind in ("ma", "sa") else RATES
+    cur = [list(x) for x in calls]
+    steps = []
+
+    def obs():
+        subs = [x for x in scale_cases(rng, kind, [list(x) for x in cur], ints) if x["op"] != "build"]
+        if kind == "mr" and rng.random() < 0.6:
+            subs = [x for x in subs if x["op"] == "calc_mr"]
+        steps.append({"do": "obs", "case": rng.choice(subs)})
+
+    obs()
+    for _ in range(rng.choice([1, 1, 2, 2, 3])):
+        br = L.ref_build(cur)
+        top = max([abs(t) for t, _ in br] + [F(1)])
+        choices = ["add", "add"]
+        if kind in ("mr", "la"):
+            choices += ["mul_thr", "mul_thr", "mul_thr", "mul_rates"]
+        if kind == "mr":
+            choices += ["scaled", "scaled"]
+        do = rng.choice(choices)
+        if do == "add":
+            if br and rng.random() < 0.3:
+                t = rng.choice(br)[0]                      # merge into an existing bracket
+            else:
+                t = rng.choice([F(rng.randrange(-16, 8 * 300), 8), F(rng.randrange(-3, 400)), F(0),
+                                top + 1, br[0][0] - 1 if br else F(5)])
+            st = {"do": "add", "t": enc(t), "v": enc(rng.choice(pool))}
+        elif do == "mul_rates":
+            st = {"do": "mul_rates", "f": enc(rng.choice([F(2), F(1, 2), F(3), F(1, 4)]))}
+        else:
+            fs = [F(1, 2), F(1, 4), F(3, 4)] + ([F(2), F(4), F(3, 2), F(100)] if top * 100 < 2**15 else
+                                                [F(2), F(3, 2)] if top * 2 < 2**15 else [])
+            st = {"do": do, "f": enc(rng.choice(fs))}
+        cur = apply_step(cur, st)
+        steps.append(st)
+        obs()
+        if rng.random() < 0.3:
+            obs()
+    return {"op": "seq", "kind": kind, "calls": calls, "ints": ints, "steps": steps}
+
+
+def gen_large(rng):
+    """A scale of 130..300 brackets; bases around the 128th / 256th threshold and above all."""
+    n = rng.choice([129, 130, 131, 160, 200, 256, 257, 258, 300, rng.randrange(130, 301)])
+    step = rng.choice([F(1), F(1, 8), F(1, 2), F(2), F(5)])
+    start = rng.choice([F(0), F(0), F(-3), F(10), F(1, 8)])
+    ths = [start + k * step for k in range(n)]
+    kind = rng.choice(["mr", "mr", "mr", "la"])
+    calls = gen_calls(rng, ths, kind)
+    ints = rng.random() < 0.4
+    out = []
+    ops = ["calc_mr", "indices", "mrates", "rate_from", "thr_from"] if kind == "mr" else ["indices", "thr_from", "calc_la"]
+    for op in ops:
+        marks = [ths[k] + d for k in (1, 126, 127, 128, 129, 130, 255, 256, 257, n - 2, n - 1) if k < n
+                 for d in (F(0), F(1, 16))]
+        bases = [ths[-1] + 10, ths[-1] * 2 + 1, ths[-1] + F(1, 8), ths[0] - 1, F(rng.randrange(0, 8 * 1600), 8)]
+        bases += rng.sample(marks, min(7, len(marks)))
+        rng.shuffle(bases)
+        c = {"op": op, "kind": kind, "calls": calls, "ints": ints, "bases": [enc(b) for b in bases],
+             "dtype": "f8", "factor": "1", "eps": enc(L.eff_eps(F(1))), "round": None}
+        if op in ("calc_mr", "calc_la"):
+            c["bases"] = c["bases"][:6]
+            with_modes(c)
+            # the grid comparison divides rationals of ~10^4 bits in Coq: exact or oracle only
+            c["modes"] = [m if m == 0 else 2 for m in c["modes"]]
+        out.append(c)
+    return out
+
+
 def generate(rng, tier):
     n_scales = {"quick": 3200, "escalated": 12000, "thorough": 60000}[tier]
     n_perm = {"quick": (6, 12, 20, 20), "escalated": (20, 40, 60, 40), "thorough": (80, 150, 200, 100)}[tier]
@@ -401,6 +588,11 @@ def generate(rng, tier):
             # and the computed values after two different orders
             for order in (list(calls), list(reversed(calls))):
                 cases += [c for c in scale_cases(rng, kind, order, ints) if c["op"] != "build"][:1]
+    # stateful sequences on one scale object; a few large scales
+    for _ in range({"quick": 500, "escalated": 2000, "thorough": 10000}[tier]):
+        cases.append(gen_seq(rng))
+    for _ in range({"quick": 8, "escalated": 20, "thorough": 60}[tier]):
+        cases += gen_large(rng)
     # malformed stream: empty scale, empty base vector
     for kind in KINDS:
         for op in {"mr": ["calc_mr", "indices", "mrates", "rate_from", "thr_from"], "ma": ["calc_ma"],
@@ -417,6 +609,8 @@ def generate(rng, tier):
 
 
 def neighbours(c, rng):
+    if c["op"] == "seq":
+        return []
     out = []
     for _ in range(40):
         c2 = dict(c)
@@ -435,6 +629,8 @@ def neighbours(c, rng):
 
 def shrink(c, still_fails):
     """Drop bases, then brackets, while the oracle still fails."""
+    if c["op"] == "seq":
+        return None
     cur = dict(c)
     changed = True
     while changed:
